@@ -210,6 +210,9 @@ def run_check(mod, mod_name, prop, tier, seed, root, t0):
             new.append(v)
         else:
             known.setdefault(kid, []).append(v)
+    if os.environ.get("VERIF_DUMP"):
+        with open(os.environ["VERIF_DUMP"], "w") as f:
+            json.dump([strip(v) for v in agg["violations"]], f, default=str)
     wall = time.time() - t0
     distinct = len(agg["sigs"])
     cov = {
